@@ -464,7 +464,10 @@ def check_re_start(c, repo):
     c.need(len(ss) == 1, 'searcher_re.search: s.search(...) not found')
     k = ss[0]
     buf, wpar = f.params[1], f.params[3]
-    c.check(len(k.args) == 2 and not k.keywords, f, k, 'no end position: the search runs to the end of the buffer', witness=norm(k), kind='ast', tag='re-noend')
+    ek = end_bound_kind(f, k, buf)
+    if ek == 'unknown':
+        raise AnalysisError('searcher_re.search: the search is given an end position that is neither the end of the buffer nor the end of an earlier match (%s): cannot be decided' % norm(k))
+    c.check(ek in ('none', 'whole'), f, k, 'no end position: the search runs to the end of the buffer', witness=norm(k), kind='ast', tag='re-noend')
     c.need(len(k.args) >= 2 and is_name(k.args[0], buf) and isinstance(k.args[1], ast.Name), 's.search(buffer, searchstart) expected: %s' % norm(k))
     sv = k.args[1].id
     tv, fv, t = _branch_assigns(f, sv, _is_none_test(wpar))
